@@ -452,6 +452,86 @@ func catalogueCut(log []centry, cut int, used bool) (string, string) {
 	return "", ""
 }
 
+// catalogueUse: reading must not write. Three nodes apply a log whose replica lists name a node nobody has an address
+// for (it left the cluster, or its address has not been learnt yet) in front of reachable ones; then every node serves
+// reads that route by those lists - the catalogue with sizes (lookups on a remote replica chosen per partition), twice -
+// and must still list what the log says; so must a fresh node that restores a snapshot taken on the node that served.
+func catalogueUse(log []centry) (string, string) {
+	w := newCWorld()
+	defer w.close()
+	var nodes []*world.RNode
+	for _, id := range []uint64{1, 2, 3} {
+		n, e := w.addNode(id)
+		if e != "" {
+			return "catalogue-setup", e
+		}
+		nodes = append(nodes, n)
+		for i, en := range log {
+			var err error
+			b := en.bytes(i)
+			if e := w.run(id, func() { err = n.DM.VerifApply(b) }); e != "" || err != nil {
+				return "catalogue-apply-fails", fmt.Sprintf("node %d applying entry %d %v: %s %v", id, i, en, e, err)
+			}
+		}
+	}
+	for _, n := range nodes {
+		n := n
+		for round := 0; round < 2; round++ {
+			if e := w.run(n.ID, func() { n.DM.List(context.Background(), true) }); e != "" {
+				return "catalogue-read-fails", fmt.Sprintf("log %v: List(withSize) on node %d: %s", log, n.ID, e)
+			}
+		}
+		l, e := w.list(n)
+		if e != "" {
+			return "catalogue-list-fails", e
+		}
+		if k, d := w.againstModel(n, "after serving reads", log, l); k != "" {
+			return k, d
+		}
+	}
+	var snap []byte
+	if e := w.run(3, func() {
+		var err error
+		if snap, err = nodes[2].DM.VerifSnapshot(); err != nil {
+			panic(err)
+		}
+	}); e != "" {
+		return "catalogue-snapshot-fails", e
+	}
+	f, e := w.addNode(4)
+	if e != "" {
+		return "catalogue-setup", e
+	}
+	if e := w.run(4, func() {
+		if err := f.DM.VerifRestore(snap); err != nil {
+			panic(err)
+		}
+	}); e != "" {
+		return "catalogue-restore-fails:fresh", e
+	}
+	l, e := w.list(f)
+	if e != "" {
+		return "catalogue-list-fails", e
+	}
+	if want := modelOf(log).listing(); l != want {
+		return "listing-differs-from-log:snapshot-of-a-node-that-served-reads", fmt.Sprintf("log %v: a fresh node restoring node 3's snapshot lists {%s}, the log says {%s}", log, l, want)
+	}
+	return "", ""
+}
+
+func useLogs() [][]centry {
+	c0, c1 := centry{Kind: "create", DS: 0}, centry{Kind: "create", DS: 1, Two: true}
+	add := func(ds int, n uint64) centry { return centry{Kind: "add", DS: ds, Node: n} }
+	rem := func(ds int, n uint64) centry { return centry{Kind: "rem", DS: ds, Node: n} }
+	return [][]centry{
+		{c0, add(0, 9), add(0, 2)},
+		{c0, add(0, 9), add(0, 3)},
+		{c1, add(1, 9), rem(1, 1)},
+		{c1, rem(1, 2), add(1, 9), add(1, 2), c0},
+		{c0, c1, add(0, 9), add(1, 9), add(0, 2), rem(1, 1)},
+	}
+}
+
 func catalogueAlphabet() []centry {
 	return []centry{
 		{Kind: "create", DS: 0}, {Kind: "create", DS: 1, Two: true},
